@@ -24,12 +24,12 @@ class Crash(BaseException):
     """Raised by the environment at the crash point (BaseException: the code under test must not swallow it)."""
 
 
-def make_world(target, prefix_len=2, hash_type='sha256', parent=None, name='c', config_file=False):
+def make_world(target, prefix_len=2, hash_type='sha256', parent=None, name='c', config_file=False, page=None):
     """config_file: write a real config.json into the model container (only with a CONCRETE configuration: serialising a
     symbolic pack target would make CrossHair enumerate its values)"""
     if MODE == 'model':
-        return ModelWorld(target, prefix_len, hash_type, parent, name, config_file)
-    return RealWorld(target, prefix_len, hash_type, parent, name)
+        return ModelWorld(target, prefix_len, hash_type, parent, name, config_file, page)
+    return RealWorld(target, prefix_len, hash_type, parent, name, page)
 
 
 _ORIG = {}
@@ -53,6 +53,45 @@ def fresh_modules():
                 del M.__dict__[k]
             M.__dict__.update(_ORIG[M])
     return C, U
+
+
+def paged(C, page):
+    """Source parametrisation (DESIGN 3.9): the two function-local literals ``yield_per_size = 1000`` of container.py become
+    the value ``page`` -- after checking that the name is used nowhere except as the argument of ``.limit(...)``, so that the
+    rewritten module is the same program for page == 1000.  The transformed source is executed into the SAME module object
+    (fresh_modules() restores the original afterwards).  If the pattern is not found exactly, nothing is rewritten."""
+    import ast
+
+    src = open(C.__file__).read()
+    tree = ast.parse(src)
+    assigns, loads, limits = [], 0, 0
+    for node in ast.walk(tree):
+        if isinstance(node, ast.Assign) and len(node.targets) == 1 and isinstance(node.targets[0], ast.Name) \
+                and node.targets[0].id == 'yield_per_size' and isinstance(node.value, ast.Constant) and node.value.value == 1000:
+            assigns.append(node)
+        if isinstance(node, ast.Name) and node.id == 'yield_per_size' and isinstance(node.ctx, ast.Load):
+            loads += 1
+        if isinstance(node, ast.Call) and isinstance(node.func, ast.Attribute) and node.func.attr == 'limit' \
+                and len(node.args) == 1 and isinstance(node.args[0], ast.Name) and node.args[0].id == 'yield_per_size':
+            limits += 1
+    if len(assigns) != 2 or loads != 2 or limits != 2:
+        return False
+    for node in assigns:
+        node.value = ast.copy_location(ast.Name('_VF_PAGE', ast.Load()), node.value)
+    code = compile(tree, C.__file__, 'exec')
+    try:
+        from crosshair.tracers import NoTracing, is_tracing
+
+        tracing = is_tracing()
+    except Exception:
+        tracing = False
+    if tracing:  # class bodies cannot be executed under CrossHair's tracer
+        with NoTracing():
+            exec(code, C.__dict__)
+    else:
+        exec(code, C.__dict__)
+    C.__dict__['_VF_PAGE'] = page  # set afterwards: the value may be symbolic
+    return True
 
 
 # ====================================================================== model world
@@ -91,7 +130,7 @@ class ModelImage:
 class ModelWorld:
     kind = 'model'
 
-    def __init__(self, target, prefix_len, hash_type, parent=None, name='c', config_file=False):
+    def __init__(self, target, prefix_len, hash_type, parent=None, name='c', config_file=False, page=None):
         from . import menv
 
         self.menv = menv
@@ -102,6 +141,8 @@ class ModelWorld:
         if parent is None:
             self.C, self.U = fresh_modules()
             self.B = _MODS['B']
+            if page is not None:
+                paged(self.C, page)
             fs = self.fs = menv.ModelFS()
             self.dbs = {}
             menv.install(fs, self.dbs, self.C, self.U)
@@ -200,6 +241,31 @@ class ModelWorld:
             rows = wal.dbrows if (wal is not None and wal.dbrows is not None) else idx.dbrows
         return ModelImage(files, [dict(r) for r in rows], self.prefix_len, path)
 
+    def mount_image(self, img):
+        """a new container folder holding exactly the photographed state; returns a fresh handle on it"""
+        self._mounts = getattr(self, '_mounts', 0) + 1
+        root = '/vroot/img%d' % self._mounts
+        fs = self.fs
+        fs.dirs.add(root)
+        for d in ('loose', 'packs', 'duplicates', 'sandbox'):
+            fs.dirs.add(root + '/' + d)
+        for p, data in img.files.items():
+            q = root + p[len(img.root) :]
+            node = self.menv.Node()
+            node.data = data
+            node.synced = len(data)
+            fs.files[q] = node
+            fs.dirs.add(q.rsplit('/', 1)[0])
+        db = self.menv.ModelDB(fs, root + '/packs.idx')
+        db.versions = [[dict(r) for r in img.rows()]]
+        db.next_id = 1 + max([r['id'] for r in img.rows()] + [0])
+        self.dbs[root + '/packs.idx'] = db
+        fs.files[root + '/packs.idx'] = self.menv.Node()
+        fs.files[root + '/config.json'] = self.menv.Node(text='{}')
+        c = self.C.Container(root)
+        c._config = self.config
+        return c
+
     def fresh_folder(self):
         return '/vroot/new'
 
@@ -265,6 +331,17 @@ class ModelWorld:
 
     def damage_loose(self, key, size):
         self.fs.files[ModelImage.loose_path(self, key)].data = self.junk(9, size)
+
+    def put_duplicate(self, i, size, good, tag):
+        """a stray file duplicates/<key>.<tag> (what a Windows writer leaves behind): the object's bytes or junk"""
+        n = self.menv.Node()
+        n.data = self.content(i, size) if good else self.junk(7, size)
+        n.synced = size
+        self.fs.files[self.root + '/duplicates/' + self.key(i, size) + '.' + tag] = n
+
+    def duplicates(self):
+        pre = self.root + '/duplicates/'
+        return sorted(p[len(pre) :] for p in self.fs.files if p.startswith(pre))
 
     def update_row(self, key, field, delta):
         for r in self.db.versions[-1]:
@@ -425,7 +502,7 @@ def real_bytes(i, size):
     if not size:
         return b''
     if i in _COMPRESSIBLE:
-        unit = b'compressible-%03d-' % i
+        unit = bytes([65 + i % 26]) + b'-compressible-%03d-' % i  # distinct objects differ from the first byte on
         return (unit * (size // len(unit) + 1))[:size]
     return random.Random(1000 + i).randbytes(size)
 
@@ -590,10 +667,12 @@ class _TickOS:
 class RealWorld(RealImage):
     kind = 'real'
 
-    def __init__(self, target, prefix_len, hash_type, parent=None, name='c'):
+    def __init__(self, target, prefix_len, hash_type, parent=None, name='c', page=None):
         if parent is None:
             self.C, self.U = fresh_modules()
             self.B = _MODS['B']
+            if page is not None:
+                paged(self.C, page)
         else:
             self.C, self.U, self.B = parent.C, parent.U, parent.B
         self.bclock, self.fclock, self.bevents, self.fevents, self._firing = 0, 0, [], [], False
@@ -678,6 +757,9 @@ class RealWorld(RealImage):
     def backup_image(self, path):
         return RealImage(str(path), self.prefix_len)
 
+    def mount_image(self, img):
+        return self.C.Container(img.folder)
+
     def fresh_folder(self):
         return os.path.join(self.base, 'new')
 
@@ -737,6 +819,13 @@ class RealWorld(RealImage):
     def damage_loose(self, key, size):
         with io.open(self.loose_path(key), 'wb') as f:
             f.write(self.junk(9, size))
+
+    def put_duplicate(self, i, size, good, tag):
+        with io.open(os.path.join(self.folder, 'duplicates', self.key(i, size) + '.' + tag), 'wb') as f:
+            f.write(real_bytes(i, size) if good else self.junk(7, size))
+
+    def duplicates(self):
+        return sorted(os.listdir(os.path.join(self.folder, 'duplicates')))
 
     def update_row(self, key, field, delta):
         con = sqlite3.connect(os.path.join(self.folder, 'packs.idx'))
